@@ -141,6 +141,9 @@ class Exec:
         for b in self.bg:
             s.add(b)
         s.add(*cs)
+        from .values import str_distinct_axioms
+        for a in str_distinct_axioms():
+            s.add(a)
         return s.check() != z3.unsat
 
     # ------------------------------------------------------------------ outcomes
